@@ -23,13 +23,25 @@ type State struct {
 }
 
 // Opcode the current interpreter.ParsedOpcode from the
-// threads program counter.
+// threads program counter. A snapshot taken while an empty script is
+// current has no instruction to point at; the zero ParsedOpcode is returned.
 func (s *State) Opcode() ParsedOpcode {
+	if !s.hasOpcode() {
+		return ParsedOpcode{}
+	}
 	return s.Scripts[s.ScriptIdx][s.OpcodeIdx]
+}
+
+func (s *State) hasOpcode() bool {
+	return s.ScriptIdx >= 0 && s.ScriptIdx < len(s.Scripts) &&
+		s.OpcodeIdx >= 0 && s.OpcodeIdx < len(s.Scripts[s.ScriptIdx])
 }
 
 // RemainingScript the remaining script to be executed.
 func (s *State) RemainingScript() ParsedScript {
+	if !s.hasOpcode() {
+		return nil
+	}
 	return s.Scripts[s.ScriptIdx][s.OpcodeIdx:]
 }
 
